@@ -114,9 +114,35 @@ func (w *workRun) rendezvous(id uint64) chan *workStream {
 	return ch
 }
 
+// knownConcurrentOpen is the classifier name of the known-finding class "an
+// OpenStream call starts on a multiplexer while the open message of another
+// OpenStream call on the same multiplexer has not reached the carrier yet".
+const knownConcurrentOpen = "concurrent-open-same-side"
+
+// OverlappingOpens tells whether the case belongs to that class: two streams
+// opened from the same side with room for both opens to be in flight.
+func (c *WorkCase) OverlappingOpens() bool {
+	var n [2]int
+	for _, s := range c.Streams {
+		n[s.Opener&1]++
+	}
+	for s := 0; s < 2; s++ {
+		if n[s] >= 2 && c.Cfg[1-s].backlog() >= 2 {
+			return true
+		}
+	}
+	return false
+}
+
+// maxReaderPauses bounds the sleeping a reader script can add to a case.
+const maxReaderPauses = 20
+
 // JudgeWork executes the workload once. checkWire adds the wire reference
-// model (C24) to the verdict.
-func JudgeWork(c *WorkCase, checkWire bool) *WorkResult {
+// model (C24) to the verdict. serialOpens excludes the known-finding class
+// above by construction: per side, an OpenStream call is only started once the
+// open message of the previous one is on the carrier (the calls still overlap
+// while they wait for the peer's accept).
+func JudgeWork(c *WorkCase, checkWire, serialOpens bool) *WorkResult {
 	res := &WorkResult{}
 	w := &workRun{c: c, rv: map[uint64]chan *workStream{}}
 	w.p = NewPair(c.Env)
@@ -143,6 +169,14 @@ func JudgeWork(c *WorkCase, checkWire bool) *WorkResult {
 	}
 	ctx, cancel := context.WithCancel(context.Background())
 	defer cancel()
+	var openMu [2]sync.Mutex
+	var nextID [2]uint64
+	for s := 0; s < 2; s++ {
+		nextID[s] = 1
+		if s == c.Even {
+			nextID[s] = 2
+		}
+	}
 	for _, ws := range streams {
 		ws := ws
 		s := ws.sc.Opener & 1
@@ -153,7 +187,20 @@ func JudgeWork(c *WorkCase, checkWire bool) *WorkResult {
 				time.Sleep(time.Duration(ws.sc.DelayUs) * time.Microsecond)
 			}
 			sem[s] <- struct{}{}
-			st, err := w.p.mux[s].OpenStream(ctx)
+			var st *multiplexing.Stream
+			var err error
+			if serialOpens {
+				openMu[s].Lock()
+				id := nextID[s]
+				nextID[s] += 2
+				ch := asyncOpen(w.p.mux[s], ctx)
+				waitFor(stallBound, func() bool { return w.p.sawOpen(s, id) || ctx.Err() != nil || w.p.Down() != "" })
+				openMu[s].Unlock()
+				r := <-ch
+				st, err = r.st, r.err
+			} else {
+				st, err = w.p.mux[s].OpenStream(ctx)
+			}
 			<-sem[s]
 			w.progress.Add(1)
 			if err != nil {
@@ -386,7 +433,7 @@ func (w *workRun) reader(ws *workStream, k int) {
 		maxBuf = max(maxBuf, b)
 	}
 	buf := make([]byte, maxBuf)
-	reads := 0
+	reads, pauses := 0, 0
 	for {
 		n := 1
 		if len(sc.Bufs) > 0 {
@@ -415,7 +462,8 @@ func (w *workRun) reader(ws *workStream, k int) {
 			w.progress.Add(1)
 			break
 		}
-		if sc.PauseEvery > 0 && reads%sc.PauseEvery == 0 && sc.PauseUs > 0 {
+		if sc.PauseEvery > 0 && reads%sc.PauseEvery == 0 && sc.PauseUs > 0 && pauses < maxReaderPauses {
+			pauses++
 			time.Sleep(time.Duration(sc.PauseUs) * time.Microsecond)
 		}
 	}
